@@ -25,6 +25,9 @@ func Parts() []mc.Part {
 		mc.ExplorePart("farm-two-denoms-future-start", farm.New(farm.Variant{Name: "two-denoms-future-start", Farmers: []string{"A"}, StakeAmts: []int64{2},
 			RPB: sdk.NewCoins(mc.C("eth", 2), mc.C("btc", 3)), Total: sdk.NewCoins(mc.C("eth", 7), mc.C("btc", 7)),
 			StartDelta: 2, Creator: true, Mode: "C13"}), 6, 8, false, rule),
+		// a budget exhausted exactly at the end height: the end-blocker has nothing left to refund
+		mc.ExplorePart("farm-exact-budget", farm.New(farm.Variant{Name: "exact-budget", Farmers: []string{"A", "B"}, StakeAmts: []int64{1, 2},
+			RPB: sdk.NewCoins(mc.C("eth", 2)), Total: sdk.NewCoins(mc.C("eth", 4)), Mode: "C13"}), 6, 8, false, rule),
 		// heights are the queue keys: this chain starts at 252 and the pool ends at 255 / 256
 		mc.ExplorePart("farm-creator-ops-at-height-252", farm.New(farm.Variant{Name: "creator-ops-at-height-252", Farmers: []string{"A", "B"}, StakeAmts: []int64{1},
 			RPB: sdk.NewCoins(mc.C("eth", 3)), Total: sdk.NewCoins(mc.C("eth", 10)), Creator: true, Mode: "C13", InitialHeight: 252}), 6, 8, false, rule),
